@@ -1014,9 +1014,8 @@ fn with_first_line(other: &[u8], line: &[u8]) -> Vec<u8> {
 }
 
 /// The `two-module` family of `bpmap` (sidecars whose module info has a second MODULE line, fix d2664d76) is
-/// generated iff env `C08_TWO_MODULE` is `1` (or, without the variable, iff this constant is true). It is off by
-/// default until C10's model `BP.mapStored` / `BP.storedMatches` on main follows d2664d76 (branch agent/C10h):
-/// the lead flips THIS constant to `true` after merging it.
+/// generated iff env `C08_TWO_MODULE` is `1` (or, without the variable, iff this constant is true). On by default
+/// since C10's model `BP.mapStored` / `BP.storedMatches` on main follows d2664d76.
 pub const TWO_MODULE_DEFAULT: bool = true;
 
 pub fn two_module_enabled() -> bool {
